@@ -137,9 +137,15 @@ def execute(spec, ops):
                         disp.stop()
                         e["propagated"] = True
                 elif k == "print":
-                    console.print("\n".join(label_text(i) for i in op["ids"]))
+                    if op.get("bare"):
+                        console.print()          # no arguments: a blank line - still a print the display has to make room for
+                    else:
+                        console.print("\n".join(label_text(i) for i in op["ids"]))
                 elif k == "log":
-                    console.log(label_text(op["ids"][0]))
+                    if op.get("bare"):
+                        console.log()
+                    else:
+                        console.log(label_text(op["ids"][0]))
                 elif k == "stdout":
                     (sys.stderr if op.get("err") else sys.stdout).write("".join(label_text(i) + "\n" for i in op["ids"]))
                     if not redirect or not getattr(disp._live if cls == "status" else disp, "_started", False):
@@ -246,9 +252,13 @@ def random_history(rng, spec, n, faults):
             op["ids"] = [P(np_, i) for i in range(1, rng.choice([1, 1, 2, 3]) + 1)]
             if k == "stdout" and rng.random() < 0.4:
                 op["err"] = True
+            if k == "print" and rng.random() < 0.12:
+                op.update(bare=True, ids=[0])
         elif k == "log":
             np_ += 1
             op["ids"] = [P(np_, 1)]
+            if rng.random() < 0.12:
+                op.update(bare=True, ids=[0])
         elif k == "update":
             nf += 1
             h = rng.choice([1, 1, 1, 2, 3]) if cls == "status" else rng.choice([1, 1, 2, 3, 4, 5])
